@@ -125,6 +125,17 @@ def value_of(i):
     return i * 3 + 1
 
 
+FALSY = [0, None, '', [], 0.0, False]
+
+
+def ret_of(op, i):
+    """what the task function returns for task i: normally value_of(i); with op['ret'] == 'falsy' every other task returns a falsy
+    value (0, None, '', [], 0.0, False) — results are results, whatever their truth value"""
+    if op.get('ret') == 'falsy' and i % 2 == 0:
+        return FALSY[(i // 2) % len(FALSY)]
+    return value_of(i)
+
+
 class LoggedList(list):
     def __init__(self, data, log):
         super().__init__(data)
@@ -613,7 +624,7 @@ def _run(sc, S, obs):
             rec[7] = round(S.now - S.t0, 6)
             if numpy_in:
                 return arr * 3 + 1
-            return value_of(idx)
+            return ret_of(op, idx)
 
         def init(*args):
             op, opi, cfg, ekind, fail, numpy_in = ctx()
@@ -710,7 +721,8 @@ def _run(sc, S, obs):
             o['t1'] = round(S.now - S.t0, 6)
             o['trace_i1'] = len(S.trace)
             o['main_points_end'] = S.threads[0].points
-            if kind in ('map', 'map_unordered', 'imap', 'imap_unordered'):
+            if kind in ('map', 'map_unordered', 'imap', 'imap_unordered') and not op.get('ret'):
+                # (with op['ret'] results are not invertible to task indices: no protocol trace for such a call)
                 evs, failed = extract_proto(S.trace, o['trace_i0'], o['trace_i1'], op)
                 if failed or o.get('outcome') != 'ok' or op.get('consume', 'all') != 'all':
                     # after a failure / an abandoned lazy call: every instance drops what it holds, queues are drained
